@@ -1,4 +1,4 @@
 ---- MODULE MC_calls ----
 EXTENDS PickleGen, Ops
-Alpha == { O("MARK"), O("STOP"), G1, O("STACK_GLOBAL"), SM1, SN1, I1, K1, O("EMPTY_TUPLE"), O("TUPLE"), O("TUPLE1"), O("EMPTY_DICT"), O("REDUCE"), O("OBJ"), O("NEWOBJ"), O("NEWOBJ_EX"), O("BUILD"), O("BINPERSID"), O("POP"), O("POP_MARK"), O("DUP"), OA("PUT", 0), OA("PUT", 1), OA("GET", 0), OA("GET", 1), O("MEMOIZE") }
+Alpha == { O("MARK"), O("STOP"), G1, O("STACK_GLOBAL"), SM1, SN1, I1, K1, O("EMPTY_TUPLE"), O("TUPLE"), O("TUPLE1"), O("EMPTY_DICT"), O("REDUCE"), O("OBJ"), O("NEWOBJ"), O("NEWOBJ_EX"), O("BUILD"), O("BINPERSID"), PersidOp, O("POP"), O("POP_MARK"), O("DUP"), OA("PUT", 0), OA("PUT", 1), OA("GET", 0), OA("GET", 1), O("MEMOIZE") }
 ====
